@@ -183,6 +183,29 @@ theorem atomic_sweep_is_uninterrupted_turns (s : CState) (now : Nat) :
     (removeExpired s now).2 = (sweepAll now (s.store.length + 1) (s.store.map (·.1)) s).2.flatMap outsOf :=
   removeExpired_eq_sweepAll s now
 
+open SmppVerif.SweepTasks SmppVerif.Lemmas.SweepTasks in
+/-- Where a sweep gives up control: ONLY where it awaits the hook.  A turn that ends with the sweep through called no
+    hook; a turn that ends with the sweep suspended ends with a removal that called the hook, and no removal before it
+    in that turn did (a probe that outlived its time-to-live, a segment whose message has other segments open: swept out
+    silently, the sweep goes on).  So no other task can run between two silent removals — the schedules the theorems
+    above quantify over are exactly those the event loop can produce. -/
+theorem control_given_up_only_at_hook (now : Nat) (ks : List Nat) (s : CState) :
+    ((sweepTurn now ks s).2.2 = none → ∀ x ∈ (sweepTurn now ks s).2.1, outsOf x = []) ∧
+    (∀ rest, (sweepTurn now ks s).2.2 = some rest →
+      ∃ pre k o, (sweepTurn now ks s).2.1 = pre ++ [Obs.timeout k o] ∧ o ≠ [] ∧ ∀ x ∈ pre, outsOf x = []) :=
+  ⟨turn_through_no_hook now ks s, turn_suspended_at_hook now ks s⟩
+
+/-- non-vacuity: an overdue probe in front of an overdue submit_sm - one turn removes both, the first silently, and
+    suspends in the hook call for the second with the third key still to visit -/
+example :
+    let p : Msg := { kind := .enquireLink, seq := 1 }
+    let m2 : Msg := { kind := .submitSm, seq := 2, logId := 52 }
+    let m3 : Msg := { kind := .submitSm, seq := 3, logId := 53 }
+    let s : CState := { ttlResp := 10, ttlDeliv := 1000, store := [(1, (100, p)), (2, (100, m2)), (3, (100, m3))] }
+    (SmppVerif.SweepTasks.sweepTurn 120 [1, 2, 3] s).2 =
+      ([.timeout 1 [], .timeout 2 [.sendError m2]], some ⟨120, [3]⟩) := by
+  decide +kernel
+
 /-- non-vacuity (kernel evaluation of the turn-level model): two overdue requests; the probe's sweep reports the first and is
     suspended in the hook; meanwhile a late response for the second starts its own operation (found: matched), whose sweep
     finds nothing left to report; the probe's sweep resumes, skips the second (gone) and stores the probe.  One outcome each. -/
@@ -220,4 +243,5 @@ end SmppVerif.Props.C14
 #print axioms SmppVerif.Props.C14.interleaved_never_early
 #print axioms SmppVerif.Props.C14.interleaved_nothing_passed_over
 #print axioms SmppVerif.Props.C14.atomic_sweep_is_uninterrupted_turns
+#print axioms SmppVerif.Props.C14.control_given_up_only_at_hook
 #print axioms SmppVerif.Props.C14.correlator_step_order
